@@ -46,7 +46,7 @@ def partition_of(case, order, exe_hook):
 def run(tier, seed, replay=None, variants=None, prop='C05', prefixes=('C05_',), rule=None, extra_violations=None):
     rng = random.Random(seed)
     gate = cm.proof_gate(list(prefixes))
-    n = 48 if tier == 'quick' else 640
+    n = 66 if tier == 'quick' else 660
     kinds = ['flat', 'nested', 'multi', 'nested_big', 'nested', 'unsized', 'split', 'ltbound', 'tworoots', 'payload', 'combo']
     if replay:
         rp = json.load(open(replay))
